@@ -12,6 +12,25 @@ NOT_BUILT = "check not built yet in this round (claimed by DESIGN.md; " \
             "listed here until its static check exists and is exact)"
 
 CHECKS = {
+    "C15": {
+        "text": "PARTIAL: the decoder's placement protocol (zeroed plan, "
+                "ascending day scan, paired mirrored stores only when both "
+                "cells are free, break) is decided from guard conditions "
+                "and block structure; home != away on all orderings; the "
+                "search-space generator appends exactly one code per "
+                "(round, unordered pair) and - using the kernel's own "
+                "decoding arithmetic and Euclidean division with a "
+                "Fourier-Motzkin proven remainder range - every code "
+                "decodes to its pair, so each pairing occurs exactly "
+                "`rounds` times.",
+        "design_ref": "DESIGN.md section 4, C15",
+        "note": "Does NOT decide the home/away balance per pairing and per "
+                "team (alternation arithmetic over rounds). Index safety of "
+                "map_games is C13.",
+        "technique": "guard-condition extraction + case analysis over "
+                     "orderings + linear entailment (Euclidean division "
+                     "lemma)",
+    },
     "C18": {
         "text": "PARTIAL: the four coordinate distance functions are "
                 "normalised symbolically and must equal the TSPLIB95 "
